@@ -9,6 +9,7 @@ import (
 	"github.com/boz/kcache/filter"
 	"github.com/boz/kcache/nsname"
 	"sort"
+	"strconv"
 	"strings"
 	"time"
 
@@ -133,6 +134,7 @@ func e8Case(mask int, variant string, triples bool, perturbSeed uint64) Case {
 			}
 			return true
 		}
+		histVer := 9007199254750000 // versions of the history updates: above everything else, increasing
 		for i1, f1 := range fam {
 			for i2, f2 := range fam {
 				label := fmt.Sprintf("%s F%d->F%d", variant, i1, i2)
@@ -172,6 +174,34 @@ func e8Case(mask int, variant string, triples bool, perturbSeed uint64) Case {
 				if first, _ := cacheSnap(nd.cc.Cache()); !first.Equal(f1.Accepted(content)) {
 					r.V("C06", "initial-content-wrong", "%s: initial content %v, expected %v", label, first, f1.Accepted(content))
 					return
+				}
+				// some history first (every pair in turn takes another kind): an object of the
+				// view is updated in place by a parent event, or relabelled so that the current
+				// filter rejects it (the node announces a Delete), or relabelled back in
+				if hist := (i1 + 2*i2 + mask) % 4; hist > 0 && len(content) > 0 {
+					k := (i1 + i2) % len(content)
+					old := content[k]
+					lab := map[string]string{}
+					for kk, vv := range old.GetLabels() {
+						lab[kk] = vv
+					}
+					switch hist {
+					case 2:
+						lab["l"] = "y"
+					case 3:
+						lab["l"] = "x"
+						lab["m"] = "1"
+					}
+					histVer++
+					nv := kit.Pod(old.GetNamespace(), old.GetName(), strconv.Itoa(histVer), lab)
+					if _, err := g.apply(kcacheUpdate, nv); err != nil {
+						r.V("C07", "publish-error", "%v", err)
+						return
+					}
+					content = append(append(append([]metav1.Object(nil), content[:k]...), nv), content[k+1:]...)
+					g.barrier()
+					drainNow(events)
+					r.Add("refilters-after-parent-history", 1)
 				}
 				if !step(nd, events, cur, f2, label) {
 					return
